@@ -144,6 +144,11 @@ def gen_descs(g, tier):
                     if g.randint(0, 1):
                         prog = dict(op="warm", ty="M", R=prog["R"], D=D, q="integrate", args=[prog])
                     out.append(C.J(dict(prog=prog, xs=g.mat(2, D))))
+    # a diagonal density in dimension 40 with variances ~ 1e-8 / 1e8 (determinant outside the float range, ln det ordinary),
+    # sliced and normalised: every exposed cache must still be the true quantity
+    hd = lin.gen_scn(g, "ctor", R=2, D=40, diag=True, highdim=40)["p"]
+    leaf = dict(op="pdf", ty="P", R=2, D=40, par=hd)
+    out.append(C.J(dict(prog=dict(op="slice", ty="P", R=1, D=40, idx=[-1], args=[leaf]), xs=[[Fr(0)] * 40])))
     n = len(out) + (60 if q else 900)
     while len(out) < n:
         D = g.randint(1, 3)
